@@ -23,11 +23,16 @@ MCDurs == {D(0, 1, 0, 0, 0, 0, 0, 0, 0, 0), D(1, 0, 0, 0, 0, 0, 0, 0, 0, 0), D(0
 NoDurs == {}
 NoLargest == {}
 NoOpts == {}
-MCRoundOpts == {o \in [u : {"day", "hour", "minute", "second", "millisecond", "microsecond", "nanosecond"}, inc : {1, 2, 3, 12, 15, 30, 500}, mode : Modes \cup {"absent"}] :
+MCRoundOpts == {o \in [u : {"day", "hour", "minute", "second", "millisecond", "microsecond", "nanosecond"}, inc : {1, 2, 3, 8, 12, 15, 30, 40, 200, 500}, mode : Modes \cup {"absent"}] :
                   \/ (o.u = "day" /\ o.inc = 1) \/ (o.u = "hour" /\ o.inc \in {1, 2, 3, 12}) \/ (o.u \in {"minute", "second"} /\ o.inc \in {1, 15, 30})
-                  \/ (o.u \in {"millisecond", "microsecond", "nanosecond"} /\ o.inc \in {1, 2, 500})}
+                  \/ (o.u \in {"millisecond", "microsecond", "nanosecond"} /\ o.inc \in {1, 2, 500})
+                  \* 8, 40, 200: the increments with an odd number of multiples per enclosing unit (half-even parity counts from the start of the second)
+                  \/ (o.u \in {"millisecond", "microsecond", "nanosecond"} /\ o.inc \in {8, 40, 200} /\ o.mode \in {"halfEven", "halfExpand", "halfTrunc"})}
 RoundDTs == {DT(d, t) : d \in {Date(2020, 2, 29), Date(2020, 12, 31), Date(275760, 9, 13), Date(-271821, 4, 19)}, t \in {T1, TN, TL, TM, Time(23, 30, 0, 0, 0, 0), Time(23, 59, 59, 999, 999, 500), Time(0, 0, 0, 0, 0, 500)}}
               \cup {DT(Date(2020, 1, 1), T0)}
+              \* exact ties of those increments with an odd enclosing microsecond / millisecond field
+              \cup {DT(Date(2020, 12, 31), t) : t \in {Time(23, 59, 59, 999, 999, 996), Time(12, 0, 0, 1, 1, 4), Time(12, 0, 0, 1, 4, 0), Time(12, 0, 0, 1, 20, 0), Time(12, 0, 0, 1, 100, 0),
+                                                  Time(12, 0, 0, 0, 1, 20), Time(12, 0, 0, 0, 1, 100), Time(12, 0, 0, 4, 0, 0), Time(12, 0, 0, 1, 0, 4)}}
 
 DTJ(x) == [y |-> x.date.y, m |-> x.date.m, d |-> x.date.d, h |-> x.time.h, mi |-> x.time.mi, s |-> x.time.s, ms |-> x.time.ms, us |-> x.time.us, ns |-> x.time.ns]
 OutJ(o) == IF o.kind = "ok" THEN Ok(DTJ(o.val)) ELSE o
